@@ -8,7 +8,7 @@ from props.chk_kernels import chk_tasks, chk_canaries
 
 
 def tasks(tier):
-    return chk_tasks("C17")
+    return chk_tasks("C17", tier)
 
 
 def canaries(tier):
